@@ -132,7 +132,7 @@ pub fn c13(quick: bool, seed: u64) -> Outcome {
         "proptest schedules: sample rate log-uniform [100 Hz, 48 kHz] + 5..60 ops from {set_time(t) with t from {0, U[0,2/fs], U[0,6/fs], U[0,0.1], U[0,1], U[0,10], 10}, switch-to-fastest (t = u*2/fs), input x from {U[-10,10], 0, +-1, +-10, tiny/subnormal}, input := current output, run n samples (1-8 | 1-3000), run for the settle time}; after every sample: output inside the hull of 0 and the inputs so far; while the input is held: distance to it never grows, no crossing; after max(3*te, 8/fs) s of holding: within 1% of the distance at the start of the hold - all up to the f32 resolution allowance E_n = (1-a)E_{n-1} + 4ulp. non-trivial = schedule with a set_time while the output is still far (> 100 E_n) from the input AND a time <= 4/fs in effect at some point; distinct by hash",
     );
     o.assumptions.push("times in [0,10] s, inputs in [-10,10]; the time in effect after in-band set_time calls is either of the admissible ones (the allowance uses the slowest)".into());
-    let (cases, budget) = if quick { (12_000, 150_000u64) } else { (400_000, 3_000_000u64) };
+    let (cases, budget) = if quick { (60_000, 150_000u64) } else { (400_000, 3_000_000u64) };
     let part = pt_run("glide_c13", glide_case, cases, seed, 13, 3000, |c, st| run_c13(c, budget, st).map(|i| i.nontrivial));
     o.absorb(part);
     o
@@ -143,7 +143,7 @@ pub fn c14(quick: bool, seed: u64) -> Outcome {
         "proptest cases of four kinds: Step (fresh processor, set_time(t) with t*fs log-uniform in [100, Nmax], settle at base in {0, U[-1,1], U[-10,10]}, step by {1, +-U[0.01,10]}: coverage at sample round(t*fs/10) in [0.40,0.55] and at ceil(t*fs) >= 0.995; 1 in 20 with t beyond the 10 s clamp), Fast (t = u*2/fs incl. 0: within 0.5% after 8 samples), Long (t in (10,1000]: sample-for-sample equal to t = 10), History (1..40 set_time calls: absolute times and creep progressions with steps inside/outside the 0.05 s dead band, zeros processed in between, then a step: the response must match, within 2 E_n at every sample, a fresh processor at one of the times the statement allows to be in effect). non-trivial = Step whose resolution allowance is < 0.1% of the step, every Fast/Long case, History with >= 2 in-band calls followed by an out-of-band one; distinct by hash",
     );
     o.assumptions.push("an in-band set_time call may be ignored or honoured (the statement permits ignoring); a fresh processor responds like time 0".into());
-    let (cases, max_n) = if quick { (12_000, 30_000.0) } else { (400_000, 480_000.0) };
+    let (cases, max_n) = if quick { (150_000, 60_000.0) } else { (400_000, 480_000.0) };
     let part = pt_run("glide_c14", move || c14_case(max_n), cases, seed, 14, 3000, |c, st| run_c14(c, st).map(|i| i.nontrivial));
     o.absorb(part);
     o
